@@ -9,6 +9,26 @@ CHECKS = {
          "deterministic simulation: seeded driver-behaviour scripts (partial/zero/EINTR/EAGAIN/hard) on scripted source and sink stubs, stream-cursor reference model",
          "Seeded exploration of endpoint API calls on one shared stream with per-call fault scripts on both drivers; every call is checked against a two-cursor stream model (exact count, order, no loss/duplication, error provenance, prefix rule, step budget). Sampling, not proof; the property's exhaustive script enumeration is not claimed.",
          "Trusts the scripted driver stubs and the stream model in sim/epsim.cpp; getbuffer extension not simulated (no implementer in the repo).", "4.1"),
+ "C01": ("regsim", "exploration",
+         "deterministic simulation: seeded register-table histories (typed set/get with boundary values, bad handles, all float classes) over generated tables with memory- and callback-backed areas; storage observed at the RegisterArea seam against a byte-wise reference model",
+         "Partial claim. Every typed operation of a seeded history is checked for refinement against an independent register model (acceptance, refusal class, backing words in table byte order, bit-identical read-back, nothing changed and no callback write on refusal, 'no such entry' for every bad handle incl. one-past-the-end). The exhaustive 16-bit value enumeration of the quantifier is not claimed.",
+         "Trusts the register model in sim/regmodel.hpp (encodings written byte-wise, not via bf_*), callback area stubs and harness validator rules.", "4.7"),
+ "C02": ("regsim", "exploration",
+         "deterministic simulation: seeded block-write histories over evolving table contents (adversarial overlays of boundary / violating / non-finite encodings on current content, out-of-band corruption), whole-image before/after comparison, caller-buffer and area guards under ASan",
+         "Every block write is judged against the model: success exactly when mapped, writable and every overlapped register decodes and validates after overlay; exactly n words change and overlapped registers become touched; on failure nothing changes and (class, first address of that class inside the request) must be applicable.",
+         "Trusts sim/regmodel.hpp; failure-class precedence is not fixed (any applicable class accepted).", "4.7"),
+ "C03": ("regsim", "exploration",
+         "deterministic simulation: seeded block reads into exact-size buffers and range iterations with scripted callbacks over generated tables (readable / write-only / callback areas), contents evolved by out-of-band writes",
+         "Partial claim. Each read is checked (success iff all mapped, stored words or zero for non-readable areas, first unmapped address, zero-length, nothing outside the n words) and each iteration's visit sequence, stop rule and failure address are compared with the flat address-space model.",
+         "Trusts sim/regmodel.hpp; window positions are sampled, not enumerated.", "4.7"),
+ "C04": ("regsim", "exploration",
+         "deterministic simulation: seeded table descriptions perturbed by at most one defect, register_init and restart (re-initialisation over surviving callback storage) as history operations, post-init state and uninitialised-reporting checks",
+         "Partial claim. Initialisation verdict (rule and index) is compared with a well-formedness reference; after success default loading, zeroed memory areas, surviving callback storage and per-area register runs are checked; after failure every operation kind must report 'uninitialised'. The systematic layout grid is not claimed.",
+         "Trusts the well-formedness reference in sim/regmodel.hpp; where rule order and register order disagree about 'first', both are accepted.", "4.7"),
+ "C05": ("regsim", "exploration",
+         "deterministic simulation: seeded mixed histories of checked operations (set, bit set/clear, block write, sanitise) with out-of-band storage corruption as injected fault; inductive constraint invariant evaluated on the real storage before/after every step",
+         "After every checked operation: a register that satisfied its constraint before still does, always-fail registers are unchanged, refused operations leave the whole image unchanged, bit operations change exactly the requested bits; after corruption + sanitise violating/undecodable registers hold their default, others are unchanged, no register is touched.",
+         "Trusts sim/regmodel.hpp. Sanitise judged only on tables the property names (no always-fail registers, valid defaults, writable areas).", "4.7"),
  "C10": ("pssim", "exploration",
          "deterministic simulation: persistent storage over a simulated medium (access log, region guard, bit rot), image + independent checksum reference model",
          "Seeded exploration of configurations (data size, placement, three checksum algorithms, auxiliary buffer sizes 0..N+1) x operation histories (store, partial store incl. overflow pairs, fetch, validate, reset, restart, bit rot) on a fault-free medium; every medium access is logged and region-checked, every result compared with an image model and independently computed checksums; step budget catches non-terminating chunk loops.",
@@ -41,7 +61,7 @@ NA = {
  "C16": "pure function of (state, octets); an independent bitwise CRC is only used as oracle inside other harnesses (DESIGN.md 4.9)",
  "C20": "pure function of the input text; allocation failure ends in _Exit(1) by design, so there is no fault path to inject and no stream/state/peer (DESIGN.md 4.9)",
 }
-PENDING = {k: "harness not built yet in this round (planned per DESIGN.md section 4); no claim is made until its check exists" for k in ["C01","C02","C03","C04","C05","C06","C07","C08","C09"]}  # id -> reason, for properties whose harness is not built yet
+PENDING = {k: "harness not built yet in this round (planned per DESIGN.md section 4); no claim is made until its check exists" for k in ["C06","C07","C08","C09"]}  # id -> reason, for properties whose harness is not built yet
 
 def main():
     checks = []
